@@ -30,6 +30,7 @@ GasRefusal(ev) == ev.a = "exec" /\ ~IsOk(ev) /\ "used" \in DOMAIN ev.x
 \* is not judged here: what it does to the sums is still covered by TransferConservation.
 P01_Exact(w, ev, w2, h, r, rp) ==
   (Call(ev) /\ ev.fn \in TokenFns /\ IsOk(ev) /\ Pred(rp) /\ rp.ok) => (Bal(w2) = Bal(rp.w) /\ Carried(w2) = Carried(rp.w))
+\* a cross-shard transfer message the reference accepts (destination not frozen / paused / unpayable) is accepted and credited by the destination shard
 P01_DeliveryAccepted(w, ev, w2, h, r) ==
   (ev.a = "deliver" /\ ev.fn \in TokenFns /\ ~ev.rae /\ Pred(r) /\ r.ok) => IsOk(ev)
 \* stated without the reference operator: a delivery to a destination that carries no flag at all, is payable and holds no
@@ -40,10 +41,13 @@ NominalDest(w, ev) ==
   /\ \A t \in DOMAIN w.paused[ShStr(ShardOfA(ev.rcpt))] : ~FlagSet(w.paused[ShStr(ShardOfA(ev.rcpt))][t])
   /\ PayableOK(w, ev.rcpt)
   /\ w.acct[ev.rcpt].bad = <<>>
+\* the same, stated without the reference operator, for the plainest destination (NominalDest)
 P01_DeliveryNominal(w, ev, w2, h, r) ==
   (ev.a = "deliver" /\ ev.fn \in TokenFns /\ ~ev.rae /\ NominalDest(w, ev) /\ \A x \in Range(MsgItems([fn |-> ev.fn, args |-> ev.args])) : x.qty > 0) => IsOk(ev)
+\* a return-after-error refund the reference accepts is accepted and restores exactly the reference's balances
 P01_RefundRestores(w, ev, w2, h, r) ==
   (ev.a = "deliver" /\ ev.fn \in TokenFns /\ ev.rae /\ Pred(r) /\ r.ok) => (IsOk(ev) /\ Bal(w2) = Bal(r.w))
+\* a refused transfer call changes no balance and adds or removes no in-flight transfer
 P01_FailKeeps(w, ev, w2, h, r) ==
   (Call(ev) /\ ev.fn \in TokenFns /\ ~IsOk(ev)) => (Bal(w2) = Bal(w) /\ {<<x[1], x[4]>> : x \in Carried(w2)} = {<<x[1], x[4]>> : x \in Carried(w)})
 
@@ -59,6 +63,7 @@ P02_FreshNonce(w, ev, w2, h, r) ==
      LET t == Arg(ev,1).h
          n == ev.retn IN
      n > MaxN(h, t) /\ ~(<<t, n>> \in h.made)
+\* every function outside the supply and transfer families leaves every token balance unchanged
 P02_Others(w, ev, w2, h, r) ==
   (~Call(ev) \/ ~(ev.fn \in SupplyFns \cup TokenFns)) => Bal(w2) = Bal(w)
 P02_NoOverdraft(w, ev, w2, h, r) ==
@@ -99,6 +104,7 @@ Exempt(ev, a) ==
   \/ a = ESDTSC
   \/ (Call(ev) /\ ev.rae)
   \/ (Call(ev) /\ ev.caller = ESDTSC /\ ev.fn \in {"ESDTWipe", "ESDTUnFreeze", "ESDTUnPause", "ESDTFreeze", "ESDTPause"})
+\* an entry that is frozen, or covered by a pause on its shard, is byte-for-byte the same after the step - unless the step is one of the stated exemptions (Exempt)
 P04_Immobile(w, ev, w2, h, r) ==
   \A a \in Accts(w) \cap Accts(w2) : Known(a) /\ ShardOfA(a) >= 0 =>
     \A k \in DOMAIN w.acct[a].esdt :
@@ -110,6 +116,7 @@ P04_NoCreditWhilePaused(w, ev, w2, h, r) ==
   \A a \in Accts(w) \cap Accts(w2) : Known(a) /\ ShardOfA(a) >= 0 =>
     \A k \in (DOMAIN w2.acct[a].esdt) \ (DOMAIN w.acct[a].esdt) :
       CoveredByPause(w, ShardOfA(a), k, w2.acct[a].esdt[k]) => Exempt(ev, a)
+\* freeze / un-freeze / pause / un-pause change flags only: balances, metadata and in-flight messages stay
 P04_FlagOnly(w, ev, w2, h, r) ==
   (Call(ev) /\ ev.fn \in FlagFns) => (Bal(w2) = Bal(w) /\ MetaNZ(w2) = MetaNZ(w) /\ w2.msgs = w.msgs)
 \* the flag operations do what their name says, on THE system account of the executing shard / on the named account's entry
@@ -130,6 +137,7 @@ WasFlagged(ev, h) == {Arg(ev, i).h : i \in {j \in 1..NArgs(ev) : Arg(ev, j).h \i
 RECURSIVE Repause(_, _, _)
 Repause(w, s, Ts) == IF Ts = {} THEN w ELSE LET t == CHOOSE x \in Ts : TRUE IN
                      Repause([w EXCEPT !.paused[ShStr(s)] = Put(@, t, "0100")], s, Ts \ {t})
+\* un-freezing / un-pausing restores the earlier behaviour: a call naming a token whose flag was cleared is not refused as if the flag were still there (see the comment above FlagNow)
 P04_Restores(w, ev, w2, h, r, r2) ==
   (Call(ev) /\ ~IsOk(ev) /\ ~ev.rae /\ ev.caller # ESDTSC /\ Pred(r) /\ r.ok /\ NArgs(ev) >= 1 /\ WasFlagged(ev, h) # {}
      /\ (\A t \in WasFlagged(ev, h) : ~FlagNow(w, ev.sh, t))
@@ -139,6 +147,7 @@ P04_Restores(w, ev, w2, h, r, r2) ==
 \* C05
 P05_Protected(w, ev, w2, h, r) ==
   (Call(ev) /\ ev.fn = "SaveKeyValue") => (Proto(w2) = Proto(w) /\ w2.paused = w.paused /\ w2.sysx = w.sysx /\ Fields(w2) = Fields(w))
+\* an accepted SaveKeyValue is a non-contract account writing to itself and leaves exactly the user keys the (permissive) reference computes; no other call touches user keys
 P05_KVExact(w, ev, w2, h, r, rp) ==
   /\ (Call(ev) /\ ev.fn = "SaveKeyValue" /\ IsOk(ev)) => (ev.caller = ev.rcpt /\ ~IsSC(ev.caller) /\ (Pred(rp) => (rp.ok /\ KVMap(w2) = KVMap(rp.w))))
   /\ (~Call(ev) \/ ev.fn # "SaveKeyValue") => KVMap(w2) = KVMap(w)
@@ -168,6 +177,7 @@ Representable05(ev) == \A i \in 1..NArgs(ev) : Arg(ev, i).n >= 0 \/ BLen(Arg(ev,
 InFoot(w, ev, k) == k \in FootKeys(w, ev) \/ (~Representable05(ev) /\ Named(ev, k))
 NamedAccts(ev) == {ev.caller, ev.rcpt} \cup {Arg(ev, i).ad : i \in 1..NArgs(ev)}
 ChangedKeys(f, g) == {k \in (DOMAIN f) \cup (DOMAIN g) : ~(k \in DOMAIN f /\ k \in DOMAIN g /\ f[k] = g[k])}
+\* footprint: a call changes only protocol entries of the (token, nonce) keys its input names (FootKeys), only in sender, destination or system account, and only the account-level fields its kind may change
 P05_Frame(w, ev, w2, h, r) ==
   /\ Accts(w2) = Accts(w)
   /\ ~Call(ev) => (w2.acct = w.acct /\ w2.paused = w.paused /\ w2.msgs = w.msgs)
@@ -187,12 +197,14 @@ P05_Frame(w, ev, w2, h, r) ==
 
 \* C06
 Fwd(ev) == ev.fwd
+\* GasRemaining + gas limits of the emitted output transfers <= GasProvided (for 2^64-scale gas: the logged consumption is non-negative)
 P06_NoGasCreated(w, ev, w2, h, r) ==
   (Call(ev) /\ IsOk(ev)) => (ev.gr < HugeGas /\ ev.fwd < HugeGas /\ ev.gr + ev.fwd <= ev.gas) \/ (ev.gascls # "" /\ "consumed" \in DOMAIN ev.x /\ ev.x.consumed >= 0)
 \* "what the function charges" is MEASURED on the real code: the harness runs the same call on the same pre-state with ample gas first
 \* (undone afterwards) and logs the consumption as x.used; a real step given less than that fails or keeps nothing.  (Whether the measured
 \* charge is the right price is C16's question, not this one: a stale or wrong price creates no gas.)
 Underfunded(ev) == ev.a = "exec" /\ "used" \in DOMAIN ev.x /\ ev.x.used < HugeGas /\ ev.gas < ev.x.used
+\* given less gas than the function charges (charge measured on the real code with ample gas), the call fails or keeps nothing (see the comment above Underfunded)
 P06_Underfunded(w, ev, w2, h, r) ==
   (Call(ev) /\ IsOk(ev) /\ Underfunded(ev)) => ev.gr + ev.fwd = 0
 
@@ -216,17 +228,21 @@ P07_FaultNonce(w, ev, w2, h, r) ==
            \A i \in 1..Len(ev.out) : (ev.out[i].fn = "ESDTNFTCreateRoleTransfer" /\ Len(ev.out[i].args) >= 2) => ev.out[i].args[2].n = CtrOf(w.acct[ev.rcpt], Arg(ev,1).h)
 \* what the hand-over messages in flight carry: token and counter (and who gets them)
 HandoverMsgs(ms) == {<<ms[i].from, ms[i].to, SemMsg(ms[i]).args>> : i \in {j \in 1..Len(ms) : ms[j].fn = "ESDTNFTCreateRoleTransfer"}}
+\* a hand-over the reference accepts is accepted and leaves the counters, role lists and hand-over messages the reference computes (old holder loses both, the message carries the counter)
 P07_Handover(w, ev, w2, h, r) ==
   (Call(ev) /\ ev.fn = "ESDTNFTCreateRoleTransfer" /\ Pred(r) /\ r.ok) =>
      (IsOk(ev) /\ CtrMap(w2) = CtrMap(r.w) /\ RolesMap(w2) = RolesMap(r.w) /\ HandoverMsgs(w2.msgs) = HandoverMsgs(r.w.msgs))
+\* counters change only through a successful create or hand-over
 P07_CtrOnlyByCreate(w, ev, w2, h, r) ==
   CtrMap(w2) # CtrMap(w) => (Call(ev) /\ IsOk(ev) /\ ev.fn \in {"ESDTNFTCreate", "ESDTNFTCreateRoleTransfer"})
 
 \* C08
 \* the metadata carried by the in-flight payloads (nothing else about the messages: gas, call type ... belong to other properties)
 MsgMetas(ms) == [i \in 1..Len(ms) |-> [id |-> ms[i].id, pay |-> [j \in 1..Len(ms[i].args) |-> IF HasE(ms[i].args[j]) THEN [hm |-> ms[i].args[j].e.hm, meta |-> ms[i].args[j].e.meta] ELSE <<>>]]]
+\* when code and reference both accept, every entry's metadata - at rest and in flight - is what the reference computes (metadata travels intact through any chain of transfers)
 P08_Conf(w, ev, w2, h, r) ==
   (Call(ev) /\ IsOk(ev) /\ Pred(r) /\ r.ok) => (MetaOf(w2) = MetaOf(r.w) /\ MsgMetas(w2.msgs) = MsgMetas(r.w.msgs))
+\* a successful create stores the given name, royalties (<= 10000), hash, attributes and URIs with creator = caller under the returned nonce
 P08_Create(w, ev, w2, h, r) ==
   (Call(ev) /\ IsOk(ev) /\ ev.fn = "ESDTNFTCreate" /\ NArgs(ev) >= 7 /\ ev.retn > 0) =>
      LET k == Arg(ev,1).h \o NBHex(ev.retn) IN
@@ -259,10 +275,12 @@ MinArgs(ev) ==
     [] ev.fn = "ESDTNFTTransfer" -> 4
     [] OTHER -> IF ev.caller = ev.rcpt THEN (IF NArgs(ev) >= 2 /\ Arg(ev,2).n >= 0 THEN 3 * Arg(ev,2).n + 2 ELSE 0)
                 ELSE (IF NArgs(ev) >= 1 /\ Arg(ev,1).n >= 0 THEN 3 * Arg(ev,1).n + 1 ELSE 0)
+\* no account the oracle reports non-payable gains tokens through a transfer function unless the call carries a contract call, is a callback / transfer-and-execute, or comes from the ESDT system contract
 P09_Admissible(w, ev, w2, h, r) ==
   (Call(ev) /\ ev.fn \in TokenFns /\ IsOk(ev)) =>
      \A a \in Accts(w2) : (Gained(w, w2, a) /\ a # ev.caller /\ ~PayableOK(w, a)) =>
         (NArgs(ev) > MinArgs(ev) \/ ev.ct \in {2, 3} \/ ev.caller = ESDTSC)
+\* no accepted transfer is addressed to the metachain, and no accepted NFT / multi transfer names the sender itself or an address of another length as destination
 P09_Rejected(w, ev, w2, h, r) ==
   (Call(ev) /\ ev.fn \in TokenFns /\ IsOk(ev)) =>
      /\ ~(Known(ev.rcpt) /\ IsMetaA(ev.rcpt) /\ ev.fn = "ESDTTransfer")
@@ -281,6 +299,7 @@ SameShardCopy(ev) ==
 PriceMatches(w, ev, observed, model) ==
   IF SameShardCopy(ev) THEN LET base == model - Base(w, "DataCopyPerByte") * SumSeq(ev.pl) IN observed >= base /\ (observed - base) % Base(w, "DataCopyPerByte") = 0
   ELSE observed = model
+\* consumption (provided - remaining - forwarded) of a successful sender-side execution = the reference price under the schedule in force (PriceMatches)
 P16_Price(w, ev, w2, h, r) ==
   (ev.a = "exec" /\ IsOk(ev) /\ Pred(r) /\ r.ok /\ ev.snd) =>
      LET rf == SumSeq([i \in 1..Len(r.out) |-> IF r.out[i].tx THEN 0 ELSE r.out[i].gas])
@@ -311,6 +330,7 @@ CallStart(ev) ==     \* index of the attached function name in the arguments (1-
   ELSE IF ev.fn = "ESDTNFTTransfer" THEN 5
   ELSE IF ev.caller = ev.rcpt THEN (IF Arg(ev,2).n < 0 THEN 0 ELSE 3 * Arg(ev,2).n + 3) ELSE (IF Arg(ev,1).n < 0 THEN 0 ELSE 3 * Arg(ev,1).n + 2)
 KeysOf(w, a) == IF a \in Accts(w) THEN DOMAIN w.acct[a].esdt ELSE {}
+\* the real ESDT-transfer parser's report for the call (receiver, items, attached call) equals what the recorded step debited on the sender side / credited on the destination side
 P10_ParserEqualsLedger(w, ev, w2, h, r) ==
   (Call(ev) /\ IsOk(ev) /\ ev.fn \in TokenFns) =>
      /\ ev.par.ok /\ ~ev.par.panic
@@ -329,10 +349,12 @@ HasAt(hx) == \E i \in 1..(Len(hx) \div 2) : SubSeq(hx, 2 * i - 1, 2 * i) = "40"
 Representable(m) == ~(Len(m.fn) >= 2 /\ SubSeq(m.fn, 1, 2) = "0x" /\ (Len(m.fn) = 2 \/ HasAt(SubSeq(m.fn, 3, Len(m.fn)))))
 \* what was encoded: destination, function name, arguments (gas, call type, value are not part of the data string)
 Encoded(ms) == [i \in 1..Len(ms) |-> [to |-> ms[i].to, fn |-> ms[i].fn, args |-> SemMsg(ms[i]).args, tx |-> ms[i].tx]]
+\* every data string emitted in an output transfer parses (real call parser) into exactly the function name and arguments the reference says were encoded
 P10_RoundTrip(w, ev, w2, h, r) ==
   (Call(ev) /\ IsOk(ev) /\ Pred(r) /\ r.ok /\ \A i \in 1..Len(r.out) : Representable(r.out[i])) =>
      /\ \A i \in 1..Len(ev.out) : ~ev.out[i].perr
      /\ Encoded(ev.out) = Encoded(r.out)
+\* a protocol message that continues a built-in operation is accepted by the same-named function on the destination shard when the reference accepts it
 P10_Accepted(w, ev, w2, h, r) ==
   (ev.a = "deliver" /\ ~ev.rae /\ Pred(r) /\ r.ok) => IsOk(ev)
 
@@ -356,17 +378,23 @@ ShapeBad(ev) ==
                  st == IF ev.caller = ev.rcpt THEN 2 ELSE 1 IN
             k = 0 \/ k = HugeN \/ (k > 0 /\ n < 3 * k + st)
     [] OTHER -> FALSE
+\* the result is (output, Ok, nil error) or (nil output, error): anything else - panic, output with error, nil/nil, non-Ok code - is a third class
 P11_Shape(w, ev, w2, h, r) == Call(ev) => ev.res \in {"ok", "err"}
+\* an input that is invalid by shape alone (argument count, transfer count the arguments cannot hold, address length) is refused
 P11_ShapeVerdict(w, ev, w2, h, r) == (Call(ev) /\ ShapeBad(ev)) => ~IsOk(ev)
+\* the bytes allocated by the call stay below a bound linear in input size and touched state (measured by the harness), never proportional to a number in the arguments
 P11_Alloc(w, ev, w2, h, r) == (Call(ev) /\ "allocok" \in DOMAIN ev.x) => ev.x.allocok
 
 \* C13
 P13_Replicas(w, ev, w2, h, r) == (Call(ev) /\ "d1" \in DOMAIN ev.x) => (ev.x.d1 = ev.x.d2 /\ ev.x.d1 = ev.x.d3)
+\* input structure, argument slices (content, identity, guard bytes of the shared backing array) are unchanged after the call
 P13_InputIntact(w, ev, w2, h, r) == (Call(ev) /\ "intact" \in DOMAIN ev.x) => ev.x.intact
 
 \* C17: an injected dependency failure that fired is reported as an error (storage reads and the pause lookup may be fail-soft)
 HardFault(kind, fn) == kind \in {"write", "load", "save", "marshal", "unmarshal", "payable", "acctop"} \/ (kind = "sysload" /\ fn \in {"ESDTPause", "ESDTUnPause"})
+\* a dependency failure of a kind the property lists that actually fired makes the call return an error
 P17_FaultIsError(w, ev, w2, h, r) == (ev.a = "fault" /\ ev.x.fired /\ HardFault(ev.x.kind, ev.fn)) => ev.res = "err"
+\* under every injected dependency failure the call still returns a result or an error
 P17_NoPanic(w, ev, w2, h, r) == ev.a = "fault" => ev.res \in {"ok", "err"}
 
 \* C18 (binding under every factory configuration): the behaviour registered under "SetUserName" depends on the factory's
